@@ -125,7 +125,9 @@ def merge_checker_view(trace, cex, nreplay, pidmap):
         if k < 0:
             continue
         if k >= len(cex):
-            r["cmis"] = True
+            # the application died inside its last step (xbt_assert of an ill-formed program): the checker never decoded it
+            if not (j == len(hs) - 1 and k == len(cex)):
+                r["cmis"] = True
             continue
         c = cex[k]
         r["ca"] = pidmap.get(c["a"], -c["a"])
